@@ -629,7 +629,13 @@ func (r *runner) apply(ev string) bool {
 	case "create":
 		if p := r.c.Primary(); p != nil {
 			if d := p.DB(f[1]); d == nil || d.PageN() == 0 {
-				return r.recreate(p, f[1])
+				return r.recreate(p, f[1], false)
+			}
+		}
+	case "createps":
+		if p := r.c.Primary(); p != nil {
+			if d := p.DB(f[1]); d == nil || d.PageN() == 0 {
+				return r.recreate(p, f[1], true)
 			}
 		}
 	case "sync":
@@ -786,12 +792,20 @@ func (r *runner) importDB(p *lab.Node, name, kind string) bool {
 }
 
 // recreate creates a database under a name that was dropped before: the TXID sequence must continue.
-func (r *runner) recreate(p *lab.Node, name string) bool {
+func (r *runner) recreate(p *lab.Node, name string, otherPageSize bool) bool {
 	var before ltx.Pos
 	if d := p.DB(name); d != nil {
 		before = d.Pos()
 	}
-	conn := pager.NewConn(p.M, name, r.nextOwner(), r.cfg.PageSize)
+	ps := r.cfg.PageSize
+	if otherPageSize {
+		// the application re-creates the database with another page size (PRAGMA page_size before the first write)
+		ps = 1024
+		if r.cfg.PageSize == 1024 {
+			ps = 4096
+		}
+	}
+	conn := pager.NewConn(p.M, name, r.nextOwner(), ps)
 	conn.Det = true
 	defer conn.Close()
 	res := conn.RunRTx(pager.RTx{Create: true, NewSize: 2, Final: "DELETE", Outcome: "commit"}, nil)
@@ -983,6 +997,9 @@ func (r *runner) enabled() []string {
 		if !ok || cur.N() == 0 {
 			if has("create") && p.DB(db) != nil {
 				out = append(out, "create:"+db)
+			}
+			if has("createps") && p.DB(db) != nil && db == "a" {
+				out = append(out, "createps:"+db)
 			}
 			continue
 		}
